@@ -34,12 +34,22 @@ CheckGuise(k) ==
 CheckRel(k) ==
   LET o == Obs[k] cs == o.case IN
   /\ (~C15_Relation(cs.a, cs.cfg, o) => PFail(k, "Relation"))
+  /\ (~C15_RelationQuotient(cs.a, cs.cfg, o) => PFail(k, "RelationQuotient"))
+  /\ ((RelApplicable(cs.a, cs.cfg, o) /\ ~TwoSided(cs.a)) => Note(k, "relation-has-no-quotient-form"))
   /\ (~RelApplicable(cs.a, cs.cfg, o) => Note(k, "relation-not-representable"))
 CheckUnit(k) ==
   LET o == Obs[k] cs == o.case IN
   /\ (~C15_ConstEqualsUnit(cs.a, cs.cfg, o) => PFail(k, "ConstEqualsUnit"))
   /\ ((o.present /\ ~UnitDemanded(cs.a, cs.cfg) /\ Unmodified(cs.cfg) /\ ~UnitAgrees(o)) =>
         Note(k, IF Names[cs.a].n \in DiffByDesign THEN "different-by-design" ELSE "different-outside-enumeration"))
+\* the constants of two configurations against each other
+CheckPair(k) ==
+  LET o == Obs[k] cs == o.case n == cs.a ci == RowOf(n) IN
+  /\ (~C15_CrossAgree(n, cs.cfg, cs.cfg2, cs.route, o) => PFail(k, "CrossAgree"))
+  /\ (~PairApplicable(n, cs.cfg, cs.cfg2, cs.route, o) => Note(k, "pair-not-demanded"))
+  /\ ((o.pa # ExpPresent(ci, "plain") \/ o.pb # ExpPresent(ci, "plain")) => TFail(k, "present", [present |-> ExpPresent(ci, "plain")]))
+  /\ ((o.pa /\ o.pb /\ o.da = o.db /\ o.o # (IF cs.route \in PairBoolForms THEN "bool" ELSE "num")
+        /\ ~(cs.route = "sub" /\ PureTemp(DefDim(n)) /\ o.o = "exc")) => TFail(k, "outcome", [o |-> IF cs.route \in PairBoolForms THEN "bool" ELSE "num"]))
 CheckLit(k) ==
   LET o == Obs[k] cs == o.case IN
   /\ (~C15_LitDim(cs.a, o) => PFail(k, "LitDim"))
@@ -51,5 +61,6 @@ TraceNext == c = NoCase /\ \E k \in 1..Len(Obs) : c' = [kind |-> Obs[k].case.kin
 Check == c # NoCase => CASE c.kind = "guise" -> CheckGuise(c.k)
                          [] c.kind = "rel" -> CheckRel(c.k)
                          [] c.kind = "unit" -> CheckUnit(c.k)
+                         [] c.kind = "pair" -> CheckPair(c.k)
                          [] OTHER -> CheckLit(c.k)
 =============================================================================
